@@ -532,6 +532,66 @@ func bigTree(r *RNG, leaf func() *Node) *Node {
 var bigOneIn = 400
 
 // lookAlike: a literal of another kind whose text prints like l
+// foldVariant: a text that strings.EqualFold equates with s although strings.ToLower does not (or the other way round)
+func foldVariant(r *RNG, s string) string {
+	pairs := [][2]string{{"s", "ſ"}, {"S", "ſ"}, {"σ", "ς"}, {"k", "\u212a"}, {"K", "\u212a"}, {"i", "İ"}, {"μ", "µ"}, {"ß", "ẞ"}, {"θ", "ϑ"}, {"å", "\u212b"}}
+	r.Shuffle(len(pairs), func(a, b int) { pairs[a], pairs[b] = pairs[b], pairs[a] })
+	for _, p := range pairs {
+		if strings.Contains(s, p[0]) {
+			return strings.Replace(s, p[0], p[1], 1)
+		}
+		if strings.Contains(s, p[1]) {
+			return strings.Replace(s, p[1], p[0], 1)
+		}
+	}
+	return s + pick(r, []string{"ſ", "ς", "İ", "µ"})
+}
+
+// relatedLit: the same literal, another spelling of the same value, or a near miss of it (see genTree)
+func relatedLit(r *RNG, l Lit) Lit {
+	switch l.Kind {
+	case "str":
+		body := l.Text[1 : len(l.Text)-1]
+		if strings.Contains(body, "\\") {
+			return l
+		}
+		switch r.Intn(5) {
+		case 0:
+			return l
+		case 1:
+			return Lit{Kind: "str", Text: quote(swapCase(body))}
+		case 2:
+			return Lit{Kind: "str", Text: quote(strings.ToUpper(body))}
+		case 3:
+			return Lit{Kind: "str", Text: quote(foldVariant(r, body))}
+		default:
+			return Lit{Kind: "str", Text: quote(body + "x")}
+		}
+	case "long":
+		if n, ok := parseLongText(l.Text); ok && r.Chance(1, 2) {
+			if r.Chance(1, 2) {
+				return Lit{Kind: "dbl", Text: strconv.FormatInt(n, 10) + pick(r, []string{".0", ".00", ".5"})}
+			}
+			if n == 0 {
+				return Lit{Kind: "long", Text: "-0"}
+			}
+			return Lit{Kind: "long", Text: strconv.FormatInt(n+int64(r.Intn(3))-1, 10)}
+		}
+		return l
+	case "dbl":
+		if !strings.ContainsAny(l.Text, "eE") && r.Chance(1, 2) {
+			return Lit{Kind: "dbl", Text: l.Text + pick(r, []string{"0", "00", "e0", "1"})}
+		}
+		return l
+	case "bool":
+		if r.Chance(1, 3) {
+			return Lit{Kind: "bool", Text: map[string]string{"true": "false", "false": "true"}[l.Text]}
+		}
+		return l
+	}
+	return l
+}
+
 func lookAlike(r *RNG, l Lit) (Lit, bool) {
 	switch l.Kind {
 	case "str":
@@ -573,7 +633,34 @@ func genTree(r *RNG, leaves int, maxSeg int, leaf func() *Node) *Node {
 	leaf = func() *Node {
 		n := base()
 		if (n.T == NCmp || n.T == NPres) && len(n.Path) > 0 {
-			if len(usedLeaves) > 0 && n.T == NCmp && r.Chance(1, 12) {
+			if len(usedLeaves) > 0 && n.T == NCmp && r.Chance(1, 9) {
+				// a RELATIVE of the comparison just before it (mostly its sibling in a chain): the same path, a literal that
+				// is the same value or nearly so (the same text, another spelling of the same number, another letter case, a
+				// text that is equal under case FOLDING but not after lower-casing), the same operator, its complement or
+				// another one: `flag eq true or flag ne true`, `x eq 1.5 and x eq 1.50`, `n eq "Bob" and n eq "bob"`,
+				// `p eq "s" or p eq "ſ"` - shapes an engine might be tempted to simplify
+				prev := usedLeaves[len(usedLeaves)-1]
+				n.Path = append([]string(nil), prev.Path...)
+				n.Lit = relatedLit(r, prev.Lit)
+				switch r.Intn(4) {
+				case 0:
+					n.Op = prev.Op
+				case 1:
+					n.Op = map[int]int{13: 14, 14: 13, 15: 18, 18: 15, 16: 17, 17: 16}[prev.Op]
+					if n.Op == 0 {
+						n.Op = prev.Op
+					}
+				case 2:
+					n.Op = 13
+				default:
+					n.Op = 12 + r.Intn(10)
+				}
+				if strings.HasSuffix(n.Lit.Kind, "list") {
+					n.Op = 12
+				} else if n.Op == 12 {
+					n.Op = 13
+				}
+			} else if len(usedLeaves) > 0 && n.T == NCmp && r.Chance(1, 12) {
 				// the same path and operator as an earlier comparison, with a literal of ANOTHER kind that prints alike
 				// ("true" / true, "1.5" / 1.5, "1.2.3" / 1.2.3, "5" / 5, "<nil>" / null)
 				prev := pick(r, usedLeaves)
@@ -782,6 +869,14 @@ func nearValue(r *RNG, leaf *Node, idc *int) *AV {
 	}
 	strNear := func(body string) *AV {
 		var s string
+		if r.Chance(1, 8) {
+			// equal under case folding, different after lower-casing (or the reverse)
+			s = foldVariant(r, body)
+			if r.Chance(1, 6) {
+				return stringer(s)
+			}
+			return avStr(s)
+		}
 		switch r.Intn(12) {
 		case 0, 1:
 			s = body
@@ -811,7 +906,11 @@ func nearValue(r *RNG, leaf *Node, idc *int) *AV {
 			// invalid UTF-8 around the body
 			s = body + "\xff"
 		default:
-			s = swapCase(body)
+			if r.Chance(1, 2) {
+				s = foldVariant(r, body)
+			} else {
+				s = swapCase(body)
+			}
 		}
 		if r.Chance(1, 5) {
 			return stringer(s)
@@ -1081,6 +1180,26 @@ func genObject(r *RNG, root *Node, opt ObjOpts) *AV {
 	if r.Chance(1, 5) {
 		obj.Set("unrelated", avStr("zzz"))
 		obj.Nil = false
+	}
+	// aliasing: one and the same Go map stored at two places of the object (values.Go keeps *AV identity): under a
+	// second key of the root, or - when two paths of the rule have parents that are both absent - as the parent of both
+	if len(leaves) > 0 && r.Chance(1, 10) {
+		lf := pick(r, leaves)
+		if len(lf.Path) > 1 {
+			if sub := obj.Get(lf.Path[0]); sub != nil && sub.K == AVObj {
+				for _, name := range []string{"aa_alias", "zz_alias"} {
+					if obj.Get(name) == nil && r.Chance(1, 2) {
+						obj.Set(name, sub)
+					}
+				}
+				for _, other := range leaves {
+					if len(other.Path) == len(lf.Path) && other.Path[0] != lf.Path[0] && obj.Get(other.Path[0]) == nil && r.Chance(1, 2) {
+						obj.Set(other.Path[0], sub)
+					}
+				}
+				obj.Nil = false
+			}
+		}
 	}
 	// decoys: keys that LOOK like a path of the rule but are not it (see addDecoys)
 	if len(leaves) > 0 && r.Chance(1, 5) {
